@@ -51,7 +51,7 @@ def cases(ctx):
             vs.append({"name": "v%d" % j, "dims": rng.sample(dims, k) if rng.random() < 0.5 else list(dims),
                        "internal": rng.random() < 0.4, "dtype": rng.choice(["float", "float", "obj"])})
         yield {"type": "find", "dims": dims, "sizes": sizes, "coordt": {d: rng.choice(["int", "float", "str"]) for d in dims},
-               "vars": vs, "pattern": rng.choice(["cells"] * 4 + ["mixed"] * 3 + ["pervar"] * 2 + ["partial", "none", "all"]),
+               "vars": vs, "pattern": rng.choice(["cells"] * 4 + ["mixed"] * 3 + ["pervar"] * 2 + ["partial", "none", "all"] + ["infcells"] * 3),
                "p": rng.choice([0.2, 0.5, 0.8]), "inf": rng.random() < 0.3, "method": rng.choice(["isnull", "isnull", "isfinite"]),
                "ignore_as": rng.choice(["list", "set", "str", "tuple"]), "ignore_param": rng.random() < 0.25,
                "dseed": rng.randint(0, 10 ** 9), "da": rng.random() < 0.15}
@@ -64,6 +64,8 @@ def build(case):
     import xarray as xr
     rng = np.random.default_rng(case["dseed"])
     dims, sizes = case["dims"], case["sizes"]
+    if case["pattern"] == "infcells":
+        case = dict(case, inf=False, vars=[dict(v, dtype="float") for v in case["vars"]])
     coords = {}
     for d in dims:
         n = sizes[d]
@@ -95,6 +97,10 @@ def build(case):
                 m |= rng.random(shape) < 0.15
         if pat == "all":
             m[...] = True
+        if pat == "infcells":
+            # whole locations without finite data, but not a single NaN anywhere in the dataset
+            mi = proj[..., None] if v["internal"] else proj
+            x[np.broadcast_to(mi, shape)] = np.inf if vi % 2 == 0 else -np.inf
         x[m] = np.nan
         if case["inf"]:
             x[(rng.random(shape) < 0.15) & ~m] = np.inf
